@@ -11,6 +11,8 @@ ODD = ["with space", "ünïcode", "数据", "a.b", "..", "data", "dim0", "dim1",
        "dimensions", "dim_notes", "dim", "dim10", "datafile", "data_2", "metadata"]
 DTYPES = ["?", "i1", "u1", "i2", "u2", "i4", "u4", "i8", "u8", "f2", "f4", "f8", "c8", "c16", "S1", "S5", ">i4", ">f8"]
 CLASSES = ["Node", "Array", "PointList", "PointListArray"]
+# ... plus Custom nodes (harness/vcustom.py) for the checks whose models treat attribute groups (write selection, failing appends)
+CLASSES_C = CLASSES + ["Custom"]
 
 
 # ----------------------------------------------------------------------------
@@ -246,6 +248,17 @@ def gen_payload(r, cls, simple=True):
         shape = [r.choice([1, 2, 3, 0]) if r.random() < 0.3 else r.choice([1, 2, 3]), r.choice([1, 2, 2, 0])]
         lens = [r.choice([0, 0, 1, 3]) for _ in range(shape[0] * shape[1])]
         return {"fields": fields, "shape": shape, "lens": lens, "seed": r.randrange(10**6)}
+    if cls == "Custom":
+        # node-valued attributes of every built-in class, under public and private-looking attribute names
+        names = r.sample(["first", "second", "_hidden", "image", "first2", "_x"], r.choice([1, 2, 3]))
+        attrs = []
+        for k in names:
+            c = r.choice(["Node", "Array", "PointList", "PointListArray"])
+            a = {"name": k, "cls": c, "pay": gen_payload(r, c), "md": [], "kids": []}
+            if r.random() < 0.2:
+                a["md"] = [gen_metadata(r, set(), maxdepth=1, nmax=2)]
+            attrs.append([k, a])
+        return {"attrs": attrs}
     return {}
 
 
@@ -287,6 +300,10 @@ def build_node(rec):
                 if ln:
                     n[i, j].add(build_structured(pay["fields"], ln, pay["seed"] + k))
                 k += 1
+    elif cls == "Custom":
+        from harness import vcustom
+        attrs = {k: build_node(dict(a, name=k)) for k, a in pay["attrs"]}
+        n = vcustom.cls()(name=name, attrs=attrs)
     else:
         raise ValueError(cls)
     for m in rec.get("md", []):
@@ -374,6 +391,8 @@ def reserved_names(rec):
         res |= {f for f, _ in rec["pay"]["fields"]}
     elif rec["cls"] == "PointListArray":
         res |= {"data"}
+    elif rec["cls"] == "Custom":
+        res |= {k for k, _ in rec["pay"]["attrs"]}
     return res
 
 
